@@ -353,6 +353,30 @@ pub fn run(cx: &mut Cx) {
         }
     }
 
+    // (a'') look-alike keys: every key one bit (or one bit in each of two
+    // neighbouring bytes) away from a known key is an unknown key
+    {
+        let keep = cx.pick_tier(97u64, 7, 1, 1);
+        let mut case = 0u64;
+        for k in 0..gs::KNOWN_KEYS.len() {
+            for la in gs::flipped_keys(gs::KNOWN_KEYS[k].0) {
+                case += 1;
+                if !cx.mine(case) || case % keep != 0 {
+                    continue;
+                }
+                let doc = gs::flipped_key_doc(k, &la);
+                cx.check(
+                    || format!("look-alike key {la:?} next to {}: {}", gs::KNOWN_KEYS[k].0, show(&doc.bytes)),
+                    |ev| {
+                        ev.count("class/look-alike-key");
+                        let got = ScanIndex::from_reader(&doc.bytes[..]);
+                        judge(ev, &doc, got, "slice reader")
+                    },
+                );
+            }
+        }
+    }
+
     // (b) one content fault per document.
     let n = cx.per_shard(48, 1_500, 24_000, 240_000);
     let mut r = cx.stream("faults");
